@@ -50,17 +50,6 @@ Proof.
   split; [vm_compute; reflexivity|]. split; vm_compute; discriminate.
 Qed.
 
-(* PEP 517 path: sys.argv is not among the patched attributes; a backend that rewrites it
-   (setuptools does) leaves it changed *)
-Lemma pyproject_argv_refuted :
-  exists p s', analyse_pyproject "PROJ" p ex_state = Alive s' /\
-    get ("sys", "argv") s' <> get ("sys", "argv") ex_state /\
-    kmem ("sys", "argv") (map pkey pyproject_patched) = false.
-Proof.
-  exists ([OWrite ("sys", "argv") (PObj 1)], Finish). eexists.
-  split; [vm_compute; reflexivity|]. split; [vm_compute; discriminate|vm_compute; reflexivity].
-Qed.
-
 (* two analyses interleaved A-enter, B-enter, A-exit, B-exit: B restores A's replacement *)
 Lemma threads_refuted :
   get k_chdir (interleaved_outer ex_state) <> get k_chdir ex_state /\
@@ -218,6 +207,39 @@ Proof.
       rewrite Cw2. unfold s1, do_chdir. rewrite GC. reflexivity.
     + destruct F2 as [F2 _]. rewrite F2 by exact chdir_not_pyproject. rewrite G1. exact GC.
 Qed.
+
+(* obligation on gen/C13Consts.v (repo commit 147f414): sys.argv is among the attributes the PEP 517
+   path substitutes, so pyproject_partial covers it *)
+Definition pyproject_argv_patched_b : bool := kmem ("sys", "argv") (map pkey pyproject_patched).
+Lemma pyproject_argv_patched : pyproject_argv_patched_b = true.
+Proof. vm_compute. reflexivity. Qed.
+
+Theorem pyproject_argv_restored : forall src p s sp,
+  (forall q, In q pyproject_patched -> get (pkey q) s <> Some VNone) ->
+  forallb (fun o => negb (touches k_chdir o)) (fst p) = true ->
+  snd p <> OsExit ->
+  sp = fold_left (py_step (mk_env src 0 false false s))
+         (fst p) (fst (patch_enter pyproject_patched pyproject_base (do_chdir None (get k_chdir s) src s))) ->
+  (forall q, In q pyproject_patched -> get (pkey q) s = None -> get (pkey q) sp <> None) ->
+  exists s', analyse_pyproject src p s = Alive s' /\ get ("sys", "argv") s' = get ("sys", "argv") s.
+Proof.
+  intros src p s sp NN NT NE SP CP.
+  destruct (pyproject_partial src p s sp NN NT NE SP CP) as (s' & A & R & _).
+  exists s'. split; [exact A|].
+  pose proof pyproject_argv_patched as K. unfold pyproject_argv_patched_b in K. apply kmem_In in K.
+  apply in_map_iff in K. destruct K as (q & E & Hq).
+  assert (OK : target_ok q s = true).
+  { assert (B : forallb (fun q => negb (p_byname q)) pyproject_patched = true) by (vm_compute; reflexivity).
+    rewrite forallb_forall in B. specialize (B q Hq). apply byobject_target_ok.
+    destruct (p_byname q); [discriminate|reflexivity]. }
+  rewrite <- E. apply R; auto.
+Qed.
+
+(* the former witness of the refuted clause (a backend that rewrites sys.argv), now restored *)
+Example pyproject_argv_witness_restored :
+  exists s', analyse_pyproject "PROJ" ([OWrite ("sys", "argv") (PObj 1)], Finish) ex_state = Alive s' /\
+    get ("sys", "argv") s' = get ("sys", "argv") ex_state.
+Proof. eexists. split; vm_compute; reflexivity. Qed.
 
 (* ------------------------------------------------------------------ the guards are satisfiable *)
 
